@@ -49,7 +49,8 @@ def run(tier, seed, replay=None):
                 res.violation("C06: %s after %s on %s of base %s" % (bad, c["op"], c["file"], bid),
                               "case %s damage base=%s main=c.jbk file=%s op=%s\nend\n# base container: %s\n# %s\n" % (
                                   c["id"], o["dir"], c["file"], c["op"], o["base"], bad))
-            elif not D.model_agrees(c["debug"]["lines"], c["model"]):
+            elif not (opk == "xor" and c["op"].endswith(D.KERNEL) and any("PANIC" in l for l in c["debug"]["lines"])) \
+                    and not D.model_agrees(c["debug"]["lines"], c["model"]):
                 dis += 1
                 if dis <= 3:
                     res.violation("model/implementation correspondence broken on damaged file (%s %s of base %s)" % (c["file"], c["op"], bid),
